@@ -13,6 +13,9 @@ from ..util import names_in
 
 def run(ctx, col, tier):
     repo = ctx.repo
+    from ..rules import namesfwd as _namesfwd
+    _namesfwd.run(ctx, col, ('swcgeom.core.tree', 'swcgeom.core.path', 'swcgeom.core.branch', 'swcgeom.core.node', 'swcgeom.core.compartment', 'swcgeom.core.branch_tree',
+                             'swcgeom.core.tree_utils', 'swcgeom.core.tree_utils_impl', 'swcgeom.core.swc'), floor=2)
     from ..rules import idxguard as _idxguard
     _idxguard.run(ctx, col, ('swcgeom.core.tree', 'swcgeom.core.path', 'swcgeom.core.branch', 'swcgeom.core.node', 'swcgeom.core.compartment'), floor=1)
     from ..rules import smalllints as _small_own
